@@ -606,11 +606,16 @@ func nodeType2(interp *Interpreter, sc *scope, n *node, seen []*node) (t *itype,
 			dt = sc.def.typ.ret[childPos(n)]
 		}
 
-		if isInterfaceSrc(dt) {
+		switch {
+		case isInterfaceSrc(dt):
 			// Set a new interface type preserving the concrete type (.val field).
 			t2 := *dt
 			t2.val = t
 			dt = &t2
+		case isInterfaceBin(dt):
+			// An interface type of a binary package can not hold the concrete type: the operation
+			// is performed in the type of the operands, and its result is converted at assign or return.
+			dt = t
 		}
 		t = dt
 
